@@ -25,6 +25,9 @@ type c09Case struct {
 	// Hide: the grouping expressions (key / value only) are not selected: the
 	// statement returns the aggregates of each group, one row per group
 	Hide bool `json:"hide_groups,omitempty"`
+	// DupName (one aliased grouping expression E as g): the statement selects
+	// `E as g, g as gg` and groups by `gg, gg` - the same partition as group by g
+	DupName bool `json:"dup_name,omitempty"`
 }
 
 type c09Group struct {
@@ -211,6 +214,31 @@ func c09AggrItems() []c09Aggr {
 			return c09Fold(fn, vs), true
 		}})
 	}
+	// the smallest / largest of the raw numbers, integers and floats compared
+	// by value; the result is that element (an integer stays an integer)
+	for _, fn := range []string{"min", "max"} {
+		fn := fn
+		out = append(out, c09Aggr{fn + "(value)", "mixed", func(ps []store.Pair) (ref.Val, bool) {
+			var best ref.Val
+			for i, p := range ps {
+				var v ref.Val
+				if n, ok := ref.ParseIntText(p.V); ok {
+					v = ref.I(n)
+				} else if f, ok := ref.ParseFloatText(p.V); ok {
+					v = ref.F(f)
+				} else {
+					return ref.Val{}, false
+				}
+				if i == 0 || (fn == "min" && v.Num() < best.Num()) || (fn == "max" && v.Num() > best.Num()) {
+					best = v
+				}
+			}
+			if len(ps) == 0 {
+				return ref.Null(), true
+			}
+			return best, true
+		}})
+	}
 	out = append(out, c09Aggr{"sum(value) * 2", "mixed", func(ps []store.Pair) (ref.Val, bool) {
 		vs, ok := mixed(ps)
 		if !ok {
@@ -308,6 +336,9 @@ func c09AggrItems() []c09Aggr {
 	return out
 }
 
+// gsAlias: grouping expression gi is selected under an alias.
+func gsAlias(gi int) bool { return c09GroupExprs()[gi].as != "" }
+
 // usesCn: the statement names the trailing aggregate field cn.
 func (c *c09Case) usesCn() bool {
 	as := c09AggrItems()
@@ -348,7 +379,8 @@ var c09Universes = []c09Universe{
 	// floats that agree in their first six decimals
 	{"nearfloat", []string{"a", "a1", "b", "b1"}, []string{"0.12345671", "0.12345672", "1.5", "-0.5"}, "float"},
 	// integers and floats side by side (only sum / avg / count of the raw values are defined on it)
-	{"mixed", []string{"a", "a1", "b", "b1"}, []string{"10", "0.5", "3", "2.25"}, "mixed"},
+	// (3 / 3.5 and -3 / -3.5 share their integer parts: an extreme taken on truncated values is wrong)
+	{"mixed", []string{"a", "a1", "b", "b1"}, []string{"3", "3.5", "-3", "-3.5"}, "mixed"},
 	// empty values and (through substr) empty group values: ('', 'b') and ('b', '') are different tuples
 	{"empties", []string{"a", "ab", "b", "bc"}, []string{"", "b", "c"}, ""},
 }
@@ -391,6 +423,10 @@ func (c *c09Case) query() string {
 			fields = append(fields, f)
 		}
 		names = append(names, g.name)
+		if c.DupName {
+			fields = append(fields, g.name+" as gg")
+			names = []string{"gg", "gg"}
+		}
 	}
 	for _, ai := range c.Aggrs {
 		fields = append(fields, as[ai].text)
@@ -557,6 +593,11 @@ func (c09) RunUnit(t core.Tier, u int, r *core.Reporter) {
 						}
 						c := c09Case{Groups: un.groups, Aggrs: as, Where: wi, Uni: uni.name, Store: ps, Mode: cfg.mode, B: cfg.b}
 						c09RunCase(r, &c)
+						if len(un.groups) == 1 && gsAlias(un.groups[0]) && len(as) == 1 && wi == 0 && ai < 3 {
+							d := c
+							d.DupName = true
+							c09RunCase(r, &d)
+						}
 						if hideable && (si+ci)%2 == 0 {
 							h := c
 							h.Hide = true
@@ -670,6 +711,13 @@ func c09Judge(c *c09Case) (f *core.Failure, nontrivial bool, status, observed st
 		return mk(sig, wantStr(), out.Describe()), nontrivial, "", observed
 	}
 	ng := len(c.Groups)
+	if c.DupName {
+		// two group columns showing the same value
+		ng = 2
+		for i := range want {
+			want[i] = append([]string{want[i][0]}, want[i]...)
+		}
+	}
 	if c.Hide {
 		ng = 0
 		for i := range want {
